@@ -572,6 +572,87 @@ def m_str_contains(interp, path, args, ret_ty, callee):
     return BoolV(z3.Or([x == args[1].term for x in a.bytes]) if a.bytes else z3.BoolVal(False))
 
 
+@model(r"^<str as Index<Range<usize>>>::index$|^<str as Index<RangeFrom<usize>>>::index$|^<str as Index<RangeTo<usize>>>::index$",
+       "substring by a concrete byte range; out of range panics")
+def m_str_index_range(interp, path, args, ret_ty, callee):
+    a = _symstr(interp, path, args[0])
+    r = args[1]
+    n = len(a.bytes)
+    cn = canon(callee)
+    if "RangeFrom" in cn:
+        lo, hi = concrete(r.fields[0].term), n
+    elif "RangeTo" in cn:
+        lo, hi = 0, concrete(r.fields[0].term)
+    else:
+        lo, hi = concrete(r.fields[0].term), concrete(r.fields[1].term)
+    if lo is None or hi is None:
+        raise Refuse("string slice with symbolic bounds")
+    if not (0 <= lo <= hi <= n):
+        return [Outcome(path, "panic", msg="string slice out of range")]
+    return StrSymV(a.bytes[lo:hi])
+
+
+@model(r"<impl str>::chars$", "iterator over the (ASCII) chars")
+def m_str_chars(interp, path, args, ret_ty, callee):
+    a = _symstr(interp, path, args[0])
+    return StructV("CharsIter", [IntV(b, "char") for b in a.bytes])
+
+
+@model(r"^<Chars<'_> as Iterator>::next$", "next char")
+def m_chars_next(interp, path, args, ret_ty, callee):
+    r = args[0]
+    if r.kind != "ref" or hasattr(r, "target"):
+        raise Refuse("Iterator::next needs a reference to the iterator place")
+    it = interp.read(path, r.fid, r.local, r.projs)
+    if it.kind != "struct" or it.ty != "CharsIter":
+        raise Refuse("Iterator::next on %r" % (it,))
+    if not it.fields:
+        return EnumV(ret_ty, 0, {0: []})
+    interp.write(path, r.fid, r.local, r.projs, StructV("CharsIter", it.fields[1:]))
+    return EnumV(ret_ty, 1, {1: [it.fields[0]]})
+
+
+@model(r"^<Chars<'_> as IntoIterator>::into_iter$", "identity")
+def m_chars_into_iter(interp, path, args, ret_ty, callee):
+    return args[0]
+
+
+@model(r"<impl char>::is_ascii_digit$", "'0'..='9'")
+def m_char_is_ascii_digit(interp, path, args, ret_ty, callee):
+    c = deref(interp, path, args[0])
+    return BoolV(z3.And(c.term >= 48, c.term <= 57))
+
+
+@model(r"<impl str>::parse::<u(8|16|32|64|128|size)>$",
+       "core integer parsing of an ASCII string short enough not to overflow: optional leading '+', then one or more "
+       "digits; anything else is an error")
+def m_str_parse_uint(interp, path, args, ret_ty, callee):
+    ty = re.search(r"parse::<(\w+)>$", canon(callee)).group(1)
+    a = _symstr(interp, path, args[0])
+    bs = a.bytes
+    lo, hi = int_range(ty)
+    if 10 ** len(bs) > hi:
+        raise Refuse("parse on a string long enough to overflow %s" % ty)
+
+    def err():
+        return EnumV(ret_ty, 1, {1: [StructV("ParseIntError", [])]})
+    if not bs:
+        return err()
+    outs = []
+    for p, tag in interp.fork(path, [(bs[0] == 43, "plus"), (bs[0] != 43, "none")]):
+        ds = bs[1:] if tag == "plus" else bs
+        if not ds:
+            outs.append(Outcome(p, "ret", err()))
+            continue
+        good = z3.And([z3.And(d >= 48, d <= 57) for d in ds])
+        v = zint(0)
+        for d in ds:
+            v = v * 10 + (d - 48)
+        for p2, t2 in interp.fork(p, [(good, "ok"), (z3.Not(good), "bad")]):
+            outs.append(Outcome(p2, "ret", EnumV(ret_ty, 0, {0: [IntV(v, ty)]}) if t2 == "ok" else err()))
+    return outs
+
+
 @model(r"<impl str>::split::<char>$", "lazy split on an ASCII char")
 def m_str_split(interp, path, args, ret_ty, callee):
     return StructV("StrSplitChar", [_symstr(interp, path, args[0]), args[1]])
